@@ -512,3 +512,40 @@ func CollectStrings(v reflect.Value, t *Type, out *[]string) {
 		}
 	}
 }
+
+// DictStruct is a dictionary-encoded struct value found in a dump.
+type DictStruct struct {
+	Path   string
+	Dict   string
+	Fields int    // number of fields of the struct definition
+	Repr   string // canonical text of the value (identity in the dictionary)
+}
+
+func nodeRepr(n *Node, sb *strings.Builder) {
+	sb.WriteString(n.Txt)
+	if len(n.Kids) > 0 {
+		sb.WriteByte('(')
+		for i, k := range n.Kids {
+			if i > 0 {
+				sb.WriteByte(',')
+			}
+			nodeRepr(k, sb)
+		}
+		sb.WriteByte(')')
+	}
+}
+
+// DictStructs lists the dictionary-encoded struct values of a parsed dump (outermost first).
+func DictStructs(n *Node, path string, out *[]DictStruct) {
+	if n.T == nil {
+		return
+	}
+	if n.T.Kind == KStruct && n.T.Def != nil && n.T.Def.Dict != "" && n.Txt != "nil" && n.Txt != "_" {
+		var sb strings.Builder
+		nodeRepr(n, &sb)
+		*out = append(*out, DictStruct{path, n.T.Def.Dict, len(n.T.Def.Fields), sb.String()})
+	}
+	for i, k := range n.Kids {
+		DictStructs(k, path+"/"+n.Lbl[i], out)
+	}
+}
